@@ -1,4 +1,5 @@
 """C05 — inference only ever tightens bounds (propositional part; first-order part in fol stream)."""
+from common import size
 import streams
 from checks._propcommon import dumps_of, standard_programs
 
@@ -26,7 +27,7 @@ def oracle(rec):
 
 
 def run(rep, tier, seed):
-    n = 300 if tier == "quick" else 6000
+    n = size(tier, 300, 6000)
     progs = standard_programs(seed, n // 2, "interp") + standard_programs(seed + 7919, n - n // 2, "given", crossed_p=0.15)
     recs, first_dis = streams.run_prop_stream(rep, "prop-mixed", progs, FACETS)
     rep.cov["rule"] = ("random weighted propositional programs (consistent and contradictory data), snapshot after every public "
